@@ -425,6 +425,10 @@ def run_case(spec):
             p.budget["close"] = 1
             p.do_close()
     end = sch.drain(300.0, 10000, until=lambda: all(p.app.closed for p in drv.progs))
+    if end == "steps":
+        # the step cap, not the virtual-time bound, ended the drain: no verdict on this case
+        world.finish()
+        return {"inconclusive": "step cap reached in the final drain", "violations": []}
     sch.drain(3.0, 200)
     world.finish()
 
